@@ -156,7 +156,7 @@ func (d *DFA) FindAt(cache *DFACache, haystack []byte, at int) int {
 
 	if at == len(haystack) {
 		// At end of input - check if empty string matches
-		if d.matchesEmpty(cache) {
+		if d.matchesEmptyAt(haystack, at) {
 			return at
 		}
 		return -1
@@ -193,7 +193,7 @@ func (d *DFA) SearchAt(cache *DFACache, haystack []byte, at int) int {
 	}
 
 	if at == len(haystack) {
-		if d.matchesEmpty(cache) {
+		if d.matchesEmptyAt(haystack, at) {
 			return at
 		}
 		return -1
@@ -222,7 +222,7 @@ func (d *DFA) SearchAtAnchored(cache *DFACache, haystack []byte, at int) int {
 	}
 
 	if at == len(haystack) {
-		if d.matchesEmpty(cache) {
+		if d.matchesEmptyAt(haystack, at) {
 			return at
 		}
 		return -1
@@ -331,7 +331,7 @@ func (d *DFA) SearchFirstAt(cache *DFACache, haystack []byte, at int) int {
 	}
 
 	if at == len(haystack) {
-		if d.matchesEmpty(cache) {
+		if d.matchesEmptyAt(haystack, at) {
 			return at
 		}
 		return -1
@@ -541,7 +541,7 @@ func (d *DFA) IsMatch(cache *DFACache, haystack []byte) bool {
 func (d *DFA) IsMatchAt(cache *DFACache, haystack []byte, at int) bool {
 	if at >= len(haystack) {
 		if at == len(haystack) {
-			return d.matchesEmpty(cache)
+			return d.matchesEmptyAt(haystack, at)
 		}
 		return false
 	}
@@ -1624,6 +1624,15 @@ func (d *DFA) nfaFallbackAnchored(haystack []byte, at int) int {
 		return -1
 	}
 	return end
+}
+
+// matchesEmptyAt reports whether the pattern matches the empty string at the
+// end of a non-empty haystack (at == len(haystack)). Unlike matchesEmpty it
+// keeps the bytes before the position as context: ^ does not hold there,
+// (?m)^ only behind a line feed, and \b / \B depend on the last byte.
+func (d *DFA) matchesEmptyAt(haystack []byte, at int) bool {
+	start, end, matched := d.pikevm.SearchAt(haystack, at)
+	return matched && start == at && end == at
 }
 
 // matchesEmpty checks if the pattern matches an empty string
